@@ -88,30 +88,41 @@ def call(iface, router, path):
 
 
 _MEMO = {}
+_TOKS = {}
 
 
-def _match(toks, path):
-    key = (id(toks), path)
+def _tokens(pattern):
+    t = _TOKS.get(pattern)
+    if t is None:
+        t = _TOKS[pattern] = RF.parse_pattern(pattern)
+    return t
+
+
+def _match(pattern, path):
+    key = (pattern, path)
     m = _MEMO.get(key, _MEMO)
     if m is _MEMO:
-        m = _MEMO[key] = RF.match(toks, path)
+        if len(_MEMO) > 400000:
+            _MEMO.clear()
+        m = _MEMO[key] = RF.match(_tokens(pattern), path)
     return m
 
 
-def expected(table_tokens, path):
-    for i, toks in enumerate(table_tokens):
-        m = _match(toks, path)
+def expected(table, path):
+    """table: pattern texts. Returns (index, params text | 'ambiguous', token list) of the first matching route, or None."""
+    for i, pattern in enumerate(table):
+        m = _match(pattern, path)
         if m is not None:
-            return i, m, toks
+            return i, m, _tokens(pattern)
     return None
 
 
-def judge(iface, table, table_tokens, path, r, routers):
+def judge(iface, table, path, r, routers):
     log = routers[iface][1]
     del log[:]
     res = call(iface, routers[iface][0], path)
     r.count("evaluations")
-    exp = expected(table_tokens, path)
+    exp = expected(table, path)
     w = {"iface": iface, "table": list(table), "path": path if len(path) < 200 else path[:20] + f"...({len(path)} chars)", "full_path_len": len(path)}
     if len(path) >= 200:
         w["path_recipe"] = path.replace(BIG, "<BIG>")
@@ -132,8 +143,8 @@ def judge(iface, table, table_tokens, path, r, routers):
     if toobig:
         # an integer too long for int() may also count as 'no match' for the numeric route: then the first
         # matching route among the remaining ones (or 404) is the answer
-        keep = [j for j, t in enumerate(table_tokens) if not any(x[0] == "param" and x[2] == "int" for x in t)]
-        alt = expected([table_tokens[j] for j in keep], path)
+        keep = [j for j, pat in enumerate(table) if not any(x[0] == "param" and x[2] == "int" for x in _tokens(pat))]
+        alt = expected([table[j] for j in keep], path)
         if alt is None and res.status == 404 and not log:
             return
         if alt is not None and res.status == 200 and len(log) == 1 and log[0][0] == keep[alt[0]] and i != keep[alt[0]]:
@@ -168,16 +179,14 @@ def run_shard(desc, tier):
                 tables.append((PATTERNS[first],) + rest)
         # the full path list is run for tables of size <= 2; for size 3 (thorough) paths are limited to <= 2 segments
         short = paths(min(d, 2)) if k >= 3 else ps
-        tokmap = {p: RF.parse_pattern(p) for p in PATTERNS}  # one token list per pattern (identity is the memo key)
         for table in tables:
-            toks = [tokmap[p] for p in table]
             routers = {}
             for iface in ("wsgi", "asgi"):
                 log = []
                 routers[iface] = (build_router(iface, table, log), log)
             for path in (ps if len(table) <= 2 else short):
                 for iface in ("wsgi", "asgi"):
-                    judge(iface, table, toks, path, r, routers)
+                    judge(iface, table, path, r, routers)
         r.sample({"table": list(tables[-1]), "path": ps[7]})
     else:
         roundtrip(r)
@@ -241,8 +250,7 @@ def replay(w):
         return bool(hit), {"violations": sorted(hit)}
     path = w.get("path_recipe", w["path"]).replace("<BIG>", BIG) if "path_recipe" in w else w["path"]
     table = tuple(w["table"])
-    toks = [RF.parse_pattern(p) for p in table]
     log = []
     routers = {w["iface"]: (build_router(w["iface"], table, log), log)}
-    judge(w["iface"], table, toks, path, r, routers)
+    judge(w["iface"], table, path, r, routers)
     return bool(r.viol), {"violations": sorted(r.viol), "texts": [v[2][:300] for v in r.viol.values()]}
